@@ -6,3 +6,5 @@ def check(rep, tier):
     from contracts import containers
     rep.run(containers.run_ground, rep, tier)
     rep.run(containers.run_exact, rep, tier)
+    from contracts import containers_unbounded
+    rep.run(containers_unbounded.run, rep, tier)
